@@ -1,7 +1,7 @@
 (* Cases.v — the executable entry points the correspondence harness evaluates with
    vm_compute: one record per case, holding the inputs AND the implementation's outputs. *)
 From Coq Require Import ZArith String List Bool QArith.
-From Flox Require Import ListX Val Agg Spec Pipeline Registry.
+From Flox Require Import ListX Val Agg Spec Pipeline Registry ArgRed.
 Import ListNotations.
 Open Scope Z_scope.
 
@@ -27,17 +27,35 @@ Definition numpy_op (a : AggDesc) : opname := hd (OOther "") (a_numpy a).
 Definition spec_results (a : AggDesc) (c : rcase) : list (option finval) :=
   spec_groupby (numpy_op a) (c_kws c) (c_mc c) (c_fill c) (c_ngroups c) (c_codes c) (c_vals c).
 
+(* arg reductions over a tree of blocks: position of the first occurrence of the extreme *)
+Definition chunked_arg (d : argdir) (skipna : bool) (mc : Z) (fill : option xq) (t : tree block) (g : Z)
+  : option finval :=
+  match arg_tree d skipna g t with
+  | None => option_map Plain fill
+  | Some (p, _) =>
+      if (0 <? mc) && (zlen (dropnan (concat (map (blk_vals g) (leaves t)))) <? mc)
+      then option_map Plain fill
+      else Some (Plain (QFin (inject_Z p)))
+  end.
+
 Definition model_results (a : AggDesc) (c : rcase) : list (option finval) :=
   match c_sizes c, a_chunk a with
   | [], _ => spec_results a c
   | _, None => spec_results a c      (* blockwise-only aggregation: every block is an eager reduction *)
   | sizes, Some _ =>
+    match a_rtype a, arg_of_name (numpy_op a) with
+    | ArgReduce, Some (d, skipna) =>
+      let bs := cut_blocks sizes 0 (c_codes c) (c_vals c) in
+      let t := tree_of_blocks (c_k c) bs in
+      map (chunked_arg d skipna (c_mc c) (c_fill c) t) (zrange 0 (c_ngroups c))
+    | _, _ =>
       let bs := cut_blocks sizes 0 (c_codes c) (c_vals c) in
       let t := tree_of_blocks (c_k c) bs in
       map (fun g => if c_grouped c
                     then chunked_grouped a (c_kws c) (c_mc c) (c_fill c) t g
                     else chunked_simple a (c_kws c) (c_mc c) (c_fill c) t g)
           (zrange 0 (c_ngroups c))
+    end
   end.
 
 Definition matches1 (m : option finval) (e : xq) : bool :=
